@@ -429,3 +429,14 @@ def np_linalg_eigh(interp, s, *a, **kw):
         interp.ctx.assume(lift(W.fn(k)) <= lift(W.fn(k + 1)))
     interp.trusted_used.add("model:np.linalg.eigh returns the eigenvalues in ascending order")
     return W, V
+
+
+@model(np.isclose)
+def np_isclose(interp, a, b, rtol=1e-5, atol=1e-8, equal_nan=False):
+    """np.isclose(a, b) <=> |a - b| <= atol + rtol |b|  element-wise (no NaN / inf under A2)"""
+    if not deep_sym(a) and not deep_sym(b):
+        return np.isclose(a, b, rtol=rtol, atol=atol, equal_nan=equal_nan)
+    import fractions
+    rt, at = fractions.Fraction(repr(float(rtol))), fractions.Fraction(repr(float(atol)))
+    interp.trusted_used.add("model:np.isclose(a, b) <=> |a-b| <= atol + rtol |b|")
+    return sym.elementwise(lambda x, y: abs(x - y) <= at + rt * abs(y), [a, b], "bool")
